@@ -6,6 +6,8 @@ CONSTANTS
   InitExps <- InitQ
   EndVecs <- OneEnd
   \* (thorough adds a second end vector with a zero and the exponent 3)
+  CycSet <- CycParamsQ
+  Cyc = FALSE
 SPECIFICATION Spec
 INVARIANTS DefinitionsAgree VitMeaning VitResult MantissaBound NoStall
 PROPERTY Progress
